@@ -469,10 +469,18 @@ theorem rinv_applyWrite {st : St} (hr : st.phase = .running) (hok : okAt st .app
     split
     case isTrue => exact h
     case isFalse hw =>
-      have hw' : fl.written = false := by simpa using hw
+      simp at hw
+      have hw' : fl.written = false := hw.1
       apply rinv_addNames
       obtain ⟨a, b, c, d, e, f⟩ := h
       unfold putRow
+      split
+      case isTrue hcl =>
+        -- the row is dropped (closed memdb): nothing but the flag changes
+        constructor
+        case mem => intro r hr'; exact Or.inl (e r hr')
+        all_goals assumption
+      case isFalse hcl =>
       split
       case isTrue htf =>
         have hdn : DurNames st fl.metric fl.tagv := by
@@ -518,11 +526,27 @@ theorem rinv_step (cfg : Cfg) {st : St} (e : Ev) (hok : okAt st e) (h : RInv st)
     · exact h
   case append m t =>
     split
-    · exact rinv_append m t h
+    · split
+      · exact h
+      · exact rinv_append m t h
     · exact h
   case applyBegin =>
     split
-    · exact rinv_applyBegin h
+    · split
+      · exact h
+      · exact rinv_applyBegin h
+    · exact h
+  case applyTake =>
+    split
+    · apply rinv_same h <;> (unfold doApplyTake; (repeat' split) <;> rfl)
+    · exact h
+  case applyAcquire =>
+    split
+    · apply rinv_same h <;> (unfold doApplyAcquire; (repeat' split) <;> rfl)
+    · exact h
+  case walExpire =>
+    split
+    · apply rinv_same h <;> (unfold doWalExpire; (repeat' split) <;> rfl)
     · exact h
   case applyWrite =>
     split
